@@ -1,6 +1,7 @@
-(* C11 -- property theorems (placeholder until the radix-sort theorem is integrated). *)
-From Coq Require Import ZArith List String Bool.
-From Verif Require Import Value Cursor.
+(* C11 -- property theorems: natural order, sort, skip and limit. *)
+From Coq Require Import ZArith List String Bool Permutation.
+From Verif Require Import Value Coll Cursor.
+From Verif Require Import C11Keys C11Radix C11Cursor.
 Import ListNotations.
 Open Scope Z_scope.
 
@@ -20,3 +21,58 @@ Proof.
   reflexivity.
 Qed.
 Print Assumptions C11_compute_results_slice.
+
+(* 1. what spec_sort means: when it decides, its answer is a permutation of the input,
+   consecutive documents are in order, and - on the documents tagged with their natural
+   position (index_list l 0) - any two documents appear in key order, ties in natural order *)
+Theorem C11_spec_sort_is_sorted_stable_permutation : forall spec l L,
+  spec_sort spec l = Some L ->
+  Permutation l L /\
+  (forall p a b, nth_error L p = Some a -> nth_error L (S p) = Some b ->
+                 lex_cmp spec a b = Some Lt \/ lex_cmp spec a b = Some Eq) /\
+  exists il, Permutation (index_list l O) il /\ map snd il = L /\
+    forall p q i a j b, (p < q)%nat ->
+      nth_error il p = Some (i, a) -> nth_error il q = Some (j, b) ->
+      lex_cmp spec a b = Some Lt \/ (lex_cmp spec a b = Some Eq /\ (i < j)%nat).
+Proof. exact spec_sort_meaning. Qed.
+Print Assumptions C11_spec_sort_is_sorted_stable_permutation.
+
+(* ... and there is only one such arrangement *)
+Theorem C11_sorted_stable_unique : forall spec l il1 il2,
+  Permutation (index_list l O) il1 -> Permutation (index_list l O) il2 ->
+  (forall p q i a j b, (p < q)%nat ->
+      nth_error il1 p = Some (i, a) -> nth_error il1 q = Some (j, b) ->
+      lex_cmp spec a b = Some Lt \/ (lex_cmp spec a b = Some Eq /\ (i < j)%nat)) ->
+  (forall p q i a j b, (p < q)%nat ->
+      nth_error il2 p = Some (i, a) -> nth_error il2 q = Some (j, b) ->
+      lex_cmp spec a b = Some Lt \/ (lex_cmp spec a b = Some Eq /\ (i < j)%nat)) ->
+  il1 = il2.
+Proof. exact ordered_stable_unique. Qed.
+Print Assumptions C11_sorted_stable_unique.
+
+(* 2. successive stable sorts from the last key to the first = the specified arrangement.
+   c11_spec_ok: every sort key is inside the model (path_modelled) and does not end with an
+   empty component ("" , "a."): see Refuted/C11.v *)
+Theorem C11_sort_radix : forall spec l L,
+  spec_sort spec l = Some L -> c11_spec_ok spec = true -> sort_docs spec l = Ok L.
+Proof. exact sort_radix. Qed.
+Print Assumptions C11_sort_radix.
+
+(* 3. find(filter, sort, skip, limit) followed by cursor calls in any order, then list().
+   c11_docs_ok: no stored document is the empty document; c11_meths_ok: no sort([]) call *)
+Theorem C11_cursor : forall docs f sort0 skip0 limit0 ms L,
+  cursor_spec docs f sort0 skip0 limit0 ms = Some L ->
+  c11_docs_ok docs = true -> c11_meths_ok ms = true ->
+  c11_spec_ok (final_sort sort0 ms) = true ->
+  cursor_run docs f sort0 skip0 limit0 ms = Ok L.
+Proof. exact cursor_correct. Qed.
+Print Assumptions C11_cursor.
+
+(* 4. count_documents(filter, skip=, limit=) *)
+Theorem C11_count : forall docs f skip limit n,
+  count_spec docs f skip limit = Some n ->
+  (limit = None \/ exists l, limit = Some l /\ 0 < l) ->
+  c11_docs_ok docs = true ->
+  count_run docs f skip limit = Ok (VInt n).
+Proof. exact count_correct. Qed.
+Print Assumptions C11_count.
